@@ -1,7 +1,10 @@
 (* Correspondence for C09: what the harness observed on ociauth.Scope (exported API only)
    versus the model (Model/Scope.v) and versus the property's specification, which is
    written here with plain lists as sets (append, existsb, a quadratic duplicate filter) and
-   knows nothing of bitmasks, sentinels, sorted slices or merge loops. *)
+   knows nothing of bitmasks, sentinels, sorted slices or merge loops.
+   The model's scopes are immutable values; that the Go values are too is observed: every
+   value a case produces is kept in a pool, further operations run on the same values
+   (c_ops), and pool values are looked at again later (c_again) under the same specification. *)
 From Coq Require Import String.
 From OCI Require Export Base.Outcome Model.Scope.
 From OCI Require Import Proofs.Scope Proofs.ScopeAlg Proofs.ScopeOps Proofs.ScopeEval Proofs.ScopeText Proofs.ScopeLaws.
@@ -37,6 +40,28 @@ Record sobs := {
                               Canonical and the round trips are called on s, the second half after *)
 }.
 
+(* A Scope is a value: what it denotes is fixed when it is produced.  In Go the value holds
+   three slices, so whether that is true depends on nobody writing to a backing array that two
+   values share (spare capacity handed to append, the receiver returned as the result, the
+   argument slice of NewScope kept).  The harness therefore keeps EVERY Scope value it
+   produces in a pool - a, b, a.Union(b) are numbers 0, 1, 2 - and goes on working with the
+   very same Go values: each further operation takes its operands from the pool (by number)
+   and adds its result to it. *)
+Inductive pop :=
+  | PNew (l : list rscope)           (* NewScope(l...) *)
+  | PParse (t : bytes)               (* ParseScope(t) *)
+  | PUnl                             (* UnlimitedScope() *)
+  | PUnion (i k : nat)               (* pool[i].Union(pool[k]) *)
+  | PCanon (i : nat).                (* pool[i].Canonical() *)
+
+(* A later observation of pool value number r_idx, made after further operations (on it, on
+   its operands, on other results derived from the same operands) were run: everything
+   observe sees (no walk schedule), and r_snap = the value still is Equal to, and Contains and
+   is contained in, both ways round, an independent scope that was built with NewScope from
+   the elements its first complete walk delivered at the moment it was produced
+   (UnlimitedScope() when it said it was unlimited then). *)
+Record robs := { r_idx : nat; r_obs : sobs; r_snap : bool }.
+
 Record case := {
   c_a : sexp; c_b : sexp;            (* how the two scopes were built *)
   c_probes : list rscope; c_stop : nat;
@@ -46,7 +71,10 @@ Record case := {
   c_ab : bool; c_ba : bool;          (* a.Contains(b), b.Contains(a) *)
   c_eq : bool; c_qe : bool;          (* a.Equal(b), b.Equal(a) *)
   c_ua : bool;                       (* a.Union(b).Equal(a) *)
-  c_panic : bool                     (* some call other than Len panicked *)
+  c_panic : bool;                    (* some call other than Len panicked *)
+  c_ops : list pop;                  (* further operations on the pool, in order *)
+  c_pprobes : list rscope;           (* Holds probes of the later observations *)
+  c_again : list robs                (* later observations of pool values, in the order made *)
 }.
 
 (* case files write long strings as a concatenation of dictionary words *)
@@ -119,6 +147,52 @@ Definition sobs_agrees (sc : scope) (probes : list rscope) (stop : nat) (sched :
   && Bool.eqb (o_ceq o) (Equal (Canonical sc) sc && Equal sc (Canonical sc))
   && walks_agree sc (o_iter o) sched (o_walks o).
 
+(* how pool value number n was built, as an expression over the API *)
+Definition pool_step (pool : list sexp) (o : pop) : option sexp :=
+  match o with
+  | PNew l => Some (ENew l)
+  | PParse t => Some (EParse t)
+  | PUnl => Some EUnlimited
+  | PUnion i k => match nth_error pool i, nth_error pool k with
+                  | Some x, Some y => Some (EUnion x y)
+                  | _, _ => None
+                  end
+  | PCanon i => match nth_error pool i with Some x => Some (ECanonical x) | None => None end
+  end.
+
+Fixpoint pool_exprs (pool : list sexp) (ops : list pop) : option (list sexp) :=
+  match ops with
+  | [] => Some pool
+  | o :: rest => match pool_step pool o with
+                 | Some e => pool_exprs (pool ++ [e]) rest
+                 | None => None          (* an operand that does not exist: not a case *)
+                 end
+  end.
+
+Definition pool_of (c : case) : option (list sexp) :=
+  pool_exprs [c_a c; c_b c; EUnion (c_a c) (c_b c)] (c_ops c).
+
+(* the independent copy the harness compares a value with *)
+Definition snapshot (sc : scope) : scope :=
+  if IsUnlimited sc then UnlimitedScope else NewScope (IterList sc).
+
+(* the model has no notion of "later": a value is what its expression evaluates to *)
+Definition robs_agrees (pool : list sexp) (probes : list rscope) (stop : nat) (r : robs) : bool :=
+  match nth_error pool (r_idx r) with
+  | None => false
+  | Some e =>
+      let sc := eval e in
+      sobs_agrees sc probes stop [] (r_obs r)
+      && Bool.eqb (r_snap r) (Equal sc (snapshot sc) && Equal (snapshot sc) sc
+                              && Contains sc (snapshot sc) && Contains (snapshot sc) sc)
+  end.
+
+Definition again_agrees (c : case) : bool :=
+  match pool_of c with
+  | None => false
+  | Some pool => forallb (robs_agrees pool (c_pprobes c) (c_stop c)) (c_again c)
+  end.
+
 Definition model_agrees (c : case) : bool :=
   let a := eval (c_a c) in
   let b := eval (c_b c) in
@@ -129,7 +203,8 @@ Definition model_agrees (c : case) : bool :=
   && sobs_agrees u (c_probes c) (c_stop c) (c_sched c) (c_ou c)
   && Bool.eqb (c_ab c) (Contains a b) && Bool.eqb (c_ba c) (Contains b a)
   && Bool.eqb (c_eq c) (Equal a b) && Bool.eqb (c_qe c) (Equal b a)
-  && Bool.eqb (c_ua c) (Equal u a).
+  && Bool.eqb (c_ua c) (Equal u a)
+  && again_agrees c.
 
 (* ---------- the specification: finite sets of triples as plain lists ---------- *)
 
@@ -253,6 +328,22 @@ Definition equalb (Da Db : option (list rscope)) : bool :=
   | _, _ => false
   end.
 
+(* A later observation is held to exactly what a first one is held to: the set the value's
+   expression denotes (and the text the property fixes for it) - whatever was done in between
+   with the value, its operands, or other values made from them - and the value still equals
+   the copy taken when it was produced. *)
+Definition robs_ok (pool : list sexp) (probes : list rscope) (stop : nat) (r : robs) : bool :=
+  match nth_error pool (r_idx r) with
+  | None => false
+  | Some e => spec_sobs (den e) (text e) probes stop [] (r_obs r) && r_snap r
+  end.
+
+Definition again_ok (c : case) : bool :=
+  match pool_of c with
+  | None => false
+  | Some pool => forallb (robs_ok pool (c_pprobes c) (c_stop c)) (c_again c)
+  end.
+
 Definition obs_ok (c : case) : bool :=
   let Da := den (c_a c) in
   let Db := den (c_b c) in
@@ -265,7 +356,8 @@ Definition obs_ok (c : case) : bool :=
   && Bool.eqb (c_eq c) (equalb Da Db) && Bool.eqb (c_qe c) (equalb Da Db)
   && Bool.eqb (c_ua c) (containsb Da Db)
   (* a union that adds nothing prints exactly as its receiver *)
-  && (if containsb Da Db && negb (o_unl (c_oa c)) then beqb (o_str (c_ou c)) (o_str (c_oa c)) else true).
+  && (if containsb Da Db && negb (o_unl (c_oa c)) then beqb (o_str (c_ou c)) (o_str (c_oa c)) else true)
+  && again_ok c.
 
 (* a case is non-trivial when at least two distinct triples are involved (so sorting,
    de-duplication, bitmask merging or the interleaving of known and other scopes has
@@ -503,10 +595,38 @@ Proof.
   intros (((((((((((H1 & H2) & H3) & H4) & H5) & H6) & H7) & H8) & H9) & H10) & H11) & H12). now apply beqb_eq.
 Qed.
 
+(* a well-formed scope equals, contains and is contained in the copy made from its elements *)
+Lemma snapshot_same sc : wf sc ->
+  Equal sc (snapshot sc) && Equal (snapshot sc) sc
+  && Contains sc (snapshot sc) && Contains (snapshot sc) sc = true.
+Proof.
+  intros W. unfold snapshot, IsUnlimited. destruct (unlimited sc) eqn:U.
+  - rewrite (wf_unl _ W U). reflexivity.
+  - rewrite (iter_list sc W). set (n := NewScope (abs sc)).
+    assert (Wn : wf n) by apply wf_new.
+    assert (Un : unlimited n = false) by apply unlimited_new.
+    assert (Hin : forall v, In v (abs sc) <-> In v (abs n)) by (intros v; symmetry; apply abs_new).
+    rewrite !andb_true_iff. repeat split.
+    + apply equal_spec_in; auto. split; [congruence | exact Hin].
+    + apply equal_spec_in; auto. split; [congruence | intros v; symmetry; apply Hin].
+    + apply contains_spec; auto. right. split; auto. intros v Hv. now apply Hin.
+    + apply contains_spec; auto. right. split; auto. intros v Hv. now apply Hin.
+Qed.
+
+Lemma again_sound c : again_agrees c = true -> again_ok c = true.
+Proof.
+  unfold again_agrees, again_ok. destruct (pool_of c) as [pool|]; [|discriminate].
+  rewrite !forallb_forall. intros H r Hr. specialize (H r Hr). unfold robs_agrees in H. unfold robs_ok.
+  destruct (nth_error pool (r_idx r)) as [e|]; [|discriminate].
+  cbv zeta in H. apply andb_true_iff in H as [H1 H2]. rewrite (sobs_sound _ _ _ _ _ H1). cbn [andb].
+  apply Bool.eqb_prop in H2. rewrite H2. apply snapshot_same, wf_eval.
+Qed.
+
 Lemma corr_sound c : model_agrees c = true -> obs_ok c = true.
 Proof.
   intros H. unfold model_agrees in H. rewrite !andb_true_iff in H.
-  destruct H as ((((((((Hp & Ha) & Hb) & Hu) & H1) & H2) & H3) & H4) & H5). unfold obs_ok.
+  destruct H as (((((((((Hp & Ha) & Hb) & Hu) & H1) & H2) & H3) & H4) & H5) & Hag). unfold obs_ok.
+  rewrite (again_sound c Hag), andb_true_r.
   apply Bool.eqb_prop in H1, H2, H3, H4, H5.
   change (Union (eval (c_a c)) (eval (c_b c))) with (eval (EUnion (c_a c) (c_b c))) in Hu.
   pose proof (sobs_agrees_str _ _ _ _ _ Ha) as Hastr. pose proof (sobs_agrees_str _ _ _ _ _ Hu) as Hustr.
